@@ -36,8 +36,43 @@ Theorem C13_kernels_option_independent : forall sgn kx ky ko,
   Gen.Codegen.keyout_default kx ky = Z.lxor kx ky.
 Proof. intros. repeat split. Qed.
 Print Assumptions C13_kernels_option_independent.
-(* graded mode "every result stores complete grades" is REFUTED on the current tree for algebras with a
-   null generator (known finding F5): the model's codegen_product omits sign-0 pairs exactly as the code *)
-Example C13_graded_incomplete_witness :
-  keys (gp Zops (mk_default [1; 0; 0] 1 true) [(3, 1); (5, 2); (6, 3)] [(3, 1); (5, 2); (6, 3)]) = [6].
-Proof. vm_compute. reflexivity. Qed.
+(* ---- graded mode (Model/Graded.v: the completion of grades in do_codegen and the grade-wise zero filter of
+   OperatorDict.filter) ---- for every well-formed algebra, every coefficient type, every generated dictionary d: *)
+From KV Require Import Model.Graded Theory.WF Theory.Graded.
+
+(* a graded result stores COMPLETE grades: exactly the blades of the grades occurring among the generated keys *)
+Theorem C13_graded_complete : forall R rO radd rsub rmul ropp rI A (d : mv R) K,
+  wf_alg A = true -> a_graded A = true -> (forall k, In k (keys d) -> 0 <= k < alg_len A) ->
+  (In K (keys (finish (mkOps R radd rsub rmul ropp rO rI) A d)) <->
+   0 <= K < alg_len A /\ exists k, In k (keys d) /\ popcount k = popcount K).
+Proof. exact graded_result_complete_wf. Qed.
+Print Assumptions C13_graded_complete.
+
+(* ... and holds on every blade the coefficient default mode computes: the option changes no value *)
+Theorem C13_graded_same_coefficients : forall R rO radd rsub rmul ropp rI A (d : mv R) K,
+  wf_alg A = true -> (forall k, In k (keys d) -> 0 <= k < alg_len A) -> 0 <= K < alg_len A ->
+  coeff (mkOps R radd rsub rmul ropp rO rI) K (finish (mkOps R radd rsub rmul ropp rO rI) A d)
+  = coeff (mkOps R radd rsub rmul ropp rO rI) K (canon_sort A d).
+Proof. exact graded_result_same_coefficients_wf. Qed.
+Print Assumptions C13_graded_same_coefficients.
+
+(* the symbolic zero filter keeps grades whole in graded mode, and drops a grade only if every stored coefficient
+   of that grade tests zero *)
+Theorem C13_graded_filter : forall (R : Type) A (isz : R -> bool) (x : mv R), a_graded A = true ->
+  (forall k v k' v', In (k, v) (filter_graded A isz x) -> In (k', v') x -> popcount k' = popcount k ->
+     In (k', v') (filter_graded A isz x)) /\
+  (forall kv, In kv (filter_graded A isz x) -> In kv x).
+Proof.
+  intros R A isz x Hg. split.
+  - intros k v k' v'. apply filter_graded_whole. exact Hg.
+  - apply filter_graded_sub.
+Qed.
+Print Assumptions C13_graded_filter.
+
+(* regression of the repaired defect F5 (fixed in /repo): bivector * bivector in Cl(1,0,2) - graded mode now
+   stores the whole grade 2, default mode the single generated key *)
+Example C13_graded_F5_regression :
+  keys (ggp Zops (mk_default [1; 0; 0] 1 true) [(3, 1); (5, 2); (6, 3)] [(3, 1); (5, 2); (6, 3)]) = [3; 5; 6] /\
+  keys (gp Zops (mk_default [1; 0; 0] 1 false) [(3, 1); (5, 2); (6, 3)] [(3, 1); (5, 2); (6, 3)]) = [6].
+Proof. exact graded_F5_regression. Qed.
+
